@@ -351,6 +351,31 @@ class ProbeEngine(object):
         if dict(tl) != want_tl:
             w.violate("TL", "routing table target lengths differ from the "
                       "routers' largest free blocks", kind="target-lengths")
+        # the caller edits the description (drops a chip it does not trust,
+        # later puts it back) and derives the model again
+        others = sorted(xy for xy in si if xy != tuple(m.root))
+        if others and self.t.draw(3) == 0:
+            w.probe("description_edited")
+            xy = others[self.t.draw(len(others))]
+            saved = si[xy]
+            del si[xy]
+            m2 = self.parutils.build_machine(si)
+            if xy in m2 or xy not in set(si.dead_chips()) or \
+                    set(m2) != set(si):
+                w.violate("BM", "chip %r was removed from the description "
+                          "but the model derived afterwards still has it "
+                          "(or dead_chips() does not list it)" % (xy,),
+                          kind="stale-after-edit")
+            if any(c_.location == xy for c_ in
+                   self.parutils.build_core_constraints(si)):
+                w.violate("CC", "reservation for chip %r removed from the "
+                          "description" % (xy,), kind="stale-after-edit")
+            si[xy] = saved
+            m3 = self.parutils.build_machine(si)
+            if self.machine_meaning(m3) != self.machine_meaning(mach):
+                w.violate("BM", "chip %r was put back into the description "
+                          "but the model derived afterwards differs from "
+                          "the first one" % (xy,), kind="stale-after-edit")
 
     def pick_chip(self, any_chip=False):
         t = self.t
